@@ -74,13 +74,19 @@ func pretouchRec(vtm map[reflect.Type]uint8, opts option.CompileOptions) error {
 		return nil
 	}
 	next := make(map[reflect.Type]uint8)
-	for vt, v := range vtm {
-		sub, err := pretouchType(vt, opts, v)
-		if err != nil {
-			return err
-		}
-		for svt, v := range sub {
-			next[svt] = v
+	for vt, mask := range vtm {
+		/* the program cache is keyed by (type, pointer-value): compile every requested variant */
+		for pv := uint8(0); pv < 2; pv++ {
+			if mask&(1<<pv) == 0 {
+				continue
+			}
+			sub, err := pretouchType(vt, opts, pv)
+			if err != nil {
+				return err
+			}
+			for svt, m := range sub {
+				next[svt] |= m
+			}
 		}
 	}
 	opts.RecursiveDepth -= 1
@@ -435,10 +441,11 @@ func (self *Compiler) compileStruct(p *ir.Program, sp int, vt reflect.Type) {
 	if sp >= self.opts.MaxInlineDepth || p.PC() >= vars.MAX_ILBUF || (sp > 0 && vt.NumField() >= vars.MAX_FIELDS) {
 		p.Vp(ir.OP_recurse, vt, self.pv)
 		if self.opts.RecursiveDepth > 0 {
+			/* bit 0: wanted for a non-pointer value, bit 1: wanted for a pointer value */
 			if self.pv {
-				self.rec[vt] = 1
+				self.rec[vt] |= 2
 			} else {
-				self.rec[vt] = 0
+				self.rec[vt] |= 1
 			}
 		}
 	} else {
